@@ -96,6 +96,67 @@ def plain_diff(d):
     from nbdime.diff_utils import to_diffentry_dicts
     return to_diffentry_dicts(json.loads(json.dumps(d)))
 
+# ---------------------------------------------------------------------------------------------- diffs / decisions from elsewhere
+# nbdime's own differs and strategies always list the entries of a dict-level diff in key order
+# (MappingDiffBuilder.validated, combine_patches), but patch() accepts them in ANY order: a diff written by hand or by
+# another tool, received as JSON, or a decision's custom_diff edited by a front end need not be sorted.  'foreign'
+# re-lists the dict-level entries (string keys) at EVERY nesting level of a valid diff; list-level diffs (integer keys)
+# keep their order, which is significant there.  spec = {'mode': reverse|shuffle|rotate|swap, 'seed': n, 'fresh': bool,
+# 'custom': bool}: 'fresh' = the diff arrives as new objects from JSON, otherwise the caller's DiffEntry lists are
+# re-listed in place before the snapshot; 'custom' (decisions) = a front end resolved the conflicts by hand
+# (action 'custom', custom_diff = its own listing of one side's diff).
+def _relist(lst, mode, rr):
+    n = len(lst)
+    if n < 2: return
+    if mode == 'reverse': lst.reverse()
+    elif mode == 'rotate':
+        k = rr.randrange(1, n); lst[:] = lst[k:] + lst[:k]
+    elif mode == 'swap':
+        i = rr.randrange(n - 1); lst[i], lst[i + 1] = lst[i + 1], lst[i]
+    else:
+        rr.shuffle(lst)
+
+def foreign_order(d, mode, rr):
+    """re-list, in place, the entries of every dict-level diff inside d"""
+    if not isinstance(d, list): return d
+    for e in d:
+        if isinstance(e, dict) and e.get('op') == 'patch': foreign_order(e.get('diff'), mode, rr)
+    if d and all(isinstance(e, dict) and isinstance(e.get('key'), str) for e in d):
+        _relist(d, mode, rr)
+    return d
+
+def foreign_diff(d, spec):
+    import random
+    if not spec: return d
+    if spec.get('fresh', True): d = plain_diff(d)
+    return foreign_order(d, spec.get('mode', 'shuffle'), random.Random(spec.get('seed', 0)))
+
+def foreign_decisions(decs, spec):
+    import random
+    if not spec: return decs
+    rr = random.Random(spec.get('seed', 0)); mode = spec.get('mode', 'shuffle')
+    if spec.get('fresh', True): decs = build_decisions(json.loads(json.dumps(decs)))
+    for md in decs:
+        for f in ('local_diff', 'remote_diff', 'custom_diff'):
+            if md.get(f): foreign_order(md[f], mode, rr)
+        if spec.get('custom') and md.get('conflict') and md.get('action') in ('base', 'local', 'remote', 'custom'):
+            src = md.get('custom_diff') or md.get(rr.choice(['local_diff', 'remote_diff'])) or []
+            md['custom_diff'] = foreign_order(plain_diff(src), mode, rr); md['action'] = 'custom'
+    return decs
+
+def build_decisions(lst):
+    """a decision list as it arrives from JSON / a front end: MergeDecision objects over DiffEntry lists"""
+    from nbdime.merging.decisions import MergeDecision
+    from nbdime.diff_utils import to_diffentry_dicts
+    out = []
+    for m in lst:
+        m = dict(m)
+        for f in ('local_diff', 'remote_diff', 'custom_diff'):
+            if m.get(f) is not None: m[f] = to_diffentry_dicts(json.loads(json.dumps(m[f])))
+        m['common_path'] = tuple(m.get('common_path', ()))
+        out.append(MergeDecision(**m))
+    return out
+
 def prepare(case):
     """returns (callable, ordered list of (argname, object) that are the snapshotted inputs)"""
     import nbdime
@@ -104,6 +165,7 @@ def prepare(case):
     import nbdime.prettyprint as PP
     c = case['call']
     J = lambda k: copy.deepcopy(case[k])
+    F = case.get('foreign')          # the diff / decisions come from elsewhere: see foreign_order
     if c == 'diff':
         a, b = J('a'), J('b')
         return (lambda: nbdime.diff(a, b)), [('a', a), ('b', b)]
@@ -114,10 +176,12 @@ def prepare(case):
         a = J('a')
         d = nbdime.diff(J('a'), J('b')) if 'd' not in case else J('d')
         if c == 'patch_plain' or 'd' in case: d = plain_diff(d)
+        d = foreign_diff(d, F)
         return (lambda: nbdime.patch(a, d)), [('obj', a), ('diff', d)]
     if c in ('patch_notebook', 'patch_nb_generic'):
         a = nb(case['a'])
-        d = nbdime.diff_notebooks(nb(case['a']), nb(case['b']))
+        d = nbdime.diff_notebooks(nb(case['a']), nb(case['b'])) if 'd' not in case else plain_diff(J('d'))
+        d = foreign_diff(d, F)
         f = nbdime.patch_notebook if c == 'patch_notebook' else nbdime.patch
         return (lambda: f(a, d)), [('obj', a), ('diff', d)]
     if c == 'decide_merge':
@@ -135,33 +199,41 @@ def prepare(case):
         return (lambda: f(b, l, r, args)), [('base', b), ('local', l), ('remote', r)]
     if c == 'apply_decisions':
         b = J('base')
-        decs = nbdime.decide_merge(J('base'), J('local'), J('remote'))
+        decs = nbdime.decide_merge(J('base'), J('local'), J('remote')) if 'decisions' not in case else build_decisions(J('decisions'))
+        decs = foreign_decisions(decs, F)
         return (lambda: nbdime.apply_decisions(b, decs)), [('base', b), ('decisions', decs)]
     if c == 'apply_decisions_nb':
         b = nb(case['base'])
         args = Args(**case['args']) if case.get('args') is not None else None
-        decs = MN.decide_notebook_merge(nb(case['base']), nb(case['local']), nb(case['remote']), args)
+        decs = MN.decide_notebook_merge(nb(case['base']), nb(case['local']), nb(case['remote']), args) if 'decisions' not in case \
+            else build_decisions(J('decisions'))
+        decs = foreign_decisions(decs, F)
         return (lambda: nbdime.apply_decisions(b, decs)), [('base', b), ('decisions', decs)]
     if c == 'pretty_print_notebook':
         a = nb(case['a'])
         return (lambda: PP.pretty_print_notebook(a, ppconfig())), [('nb', a)]
     if c == 'pretty_print_notebook_diff':
         a = nb(case['a'])
-        d = nbdime.diff_notebooks(nb(case['a']), nb(case['b']))
+        d = nbdime.diff_notebooks(nb(case['a']), nb(case['b'])) if 'd' not in case else plain_diff(J('d'))
+        d = foreign_diff(d, F)
         return (lambda: PP.pretty_print_notebook_diff('a.ipynb', 'b.ipynb', a, d, ppconfig())), [('a', a), ('diff', d)]
     if c == 'pretty_print_diff':
         a = J('a')
-        d = nbdime.diff(J('a'), J('b'))
+        d = nbdime.diff(J('a'), J('b')) if 'd' not in case else plain_diff(J('d'))
+        d = foreign_diff(d, F)
         return (lambda: PP.pretty_print_diff(a, d, '/', ppconfig())), [('a', a), ('diff', d)]
     if c == 'pretty_print_merge_decisions':
         b = nb(case['base'])
         args = Args(**case['args']) if case.get('args') is not None else None
-        decs = MN.decide_notebook_merge(nb(case['base']), nb(case['local']), nb(case['remote']), args)
+        decs = MN.decide_notebook_merge(nb(case['base']), nb(case['local']), nb(case['remote']), args) if 'decisions' not in case \
+            else build_decisions(J('decisions'))
+        decs = foreign_decisions(decs, F)
         return (lambda: PP.pretty_print_merge_decisions(b, decs, ppconfig())), [('base', b), ('decisions', decs)]
     if c == 'pretty_print_notebook_merge':
         b, l, r = nb(case['base']), nb(case['local']), nb(case['remote'])
         args = Args(**case['args']) if case.get('args') is not None else None
         m, decs = nbdime.merge_notebooks(nb(case['base']), nb(case['local']), nb(case['remote']), args)
+        decs = foreign_decisions(decs, F)
         return (lambda: PP.pretty_print_notebook_merge('b', 'l', 'r', b, l, r, m, decs, ppconfig())), \
             [('base', b), ('local', l), ('remote', r), ('merged', m), ('decisions', decs)]
     raise ValueError('unknown call ' + c)
